@@ -5,7 +5,7 @@
     on the use [d] with a fresh table; [instantiate r d s] fills the template of [r] from [s]. *)
 From Coq Require Import ZArith List.
 From RV Require Import Model.Common Model.Datum Model.Macro Proofs.MacroProofs Proofs.MacroNoPanic Proofs.MacroSpec
-  Proofs.TemplateSpec Proofs.ExpansionSpec.
+  Proofs.TemplateSpec Proofs.ExpansionSpec Proofs.MacroFuel.
 Import ListNotations.
 
 (** rule selection: textual order, the first matching rule decides, with its own bindings only *)
@@ -115,3 +115,15 @@ Theorem C04_ellipsis_template_expands_per_item : forall lits q e1 rest s s1 s2 p
     Forall2 (fun e fr => M lits q e [] fr) rest freshes /\
     Forall2 (fun fr d => tinst fr pick_first t = Some d) freshes more.
 Proof. exact ellipsis_template_expands_per_item. Qed.
+
+(** the fuel the model gives the matcher always suffices (Proofs/MacroFuel.v: every recursive call decreases
+    2 * (size of the patterns + size of the forms)), so for the supported class matching is DECIDED and is what
+    the specification says: the matcher answers yes or no - never out of fuel, never an error, never a panic -,
+    yes with table s' exactly when the specification relates pattern, form and s' *)
+Theorem C04_match_fuel_suffices : forall lits p d s, match_datum (match_fuel p d) lits p d s <> OutOfFuel.
+Proof. exact match_fuel_suffices. Qed.
+
+Theorem C04_matching_is_decided_by_the_specification : forall lits p d s, wfp lits p ->
+  exists b s', match_datum (match_fuel p d) lits p d s = Ok (b, s') /\
+    (b = true -> M lits p d s s') /\ (forall s2, M lits p d s s2 -> b = true /\ s2 = s').
+Proof. exact matching_is_decided_by_the_specification. Qed.
